@@ -29,7 +29,7 @@ RULE = ("cases: fitter configurations with <= k deviations from the default; exe
         "(fit, model) row, each compared at every grid distance; non-trivial = distinct (configuration, flags, photometry) with >1 grid distance")
 ASSUMPTIONS = ["finite value alphabets (DESIGN.md section 0)", "theta*dmin not below the smallest aperture (precondition)",
                "sources have >= 1 fitted point with non-zero extinction coefficient"]
-REQUIRED_CLASSES = ['second-fitter-built-before-the-first-is-used', 'more-than-128-trial-distances', 'av-range-given-as-integers', 'grid-of-hundreds-of-models', 'n_distances==1', 'aperture-beyond-table', 'best-at-first', 'best-interior', 'best-at-last', 'av-clipped-some-distances',
+REQUIRED_CLASSES = ['cube-in-megajansky', 'second-fitter-built-before-the-first-is-used', 'more-than-128-trial-distances', 'av-range-given-as-integers', 'grid-of-hundreds-of-models', 'n_distances==1', 'aperture-beyond-table', 'best-at-first', 'best-interior', 'best-at-last', 'av-clipped-some-distances',
                     'range-multiple-of-step', 'range-exact-multiple-exact-arithmetic', 'float32-path', 'limit-violated', 'non-monotone-growth', 'mixed-theta', 'request-on-smallest-aperture', 'distance-range-in-other-unit', 'apertures-in-other-angular-unit', 'aperture-tables-differ-between-bands', 'aperture-table-stored-decreasing', 'source-reflagged-between-fits']
 TIMEOUT = {'quick': 300, 'thorough': 1800}
 
@@ -112,6 +112,10 @@ def run_case(ctx, case, rec, d):
     dmin, dmax = _range(case['range'], step, ap, theta)
     avlo, avhi = case['avr']
     spec = {'fmt': fmt, 'names': names, 'bands': BANDS, 'apertures': ap, 'tables': tables, 'logd_step': step}
+    if bywav:
+        spec['cube_unit'] = ['MJy', 'Jy', 'mJy'][case['n_ap'] % 3]          # fits at tabulated wavelengths read the cube: tabulated in MJy, Jy or mJy
+        if spec['cube_unit'] == 'MJy':
+            rec.cls('cube-in-megajansky')
     ap_tabs = [ap] * len(BANDS)
     tabs = [tables[:, b, :] for b in range(len(BANDS))]
     if case.get('aptab') == 'per-band' and case['n_ap'] >= 3 and not bywav:
